@@ -44,6 +44,23 @@ def check_projectors(run, ex, jnp, rng, tier):
                 ppl = np.asarray(ex.ifft(P(P(ex.fft(jnp.asarray(u)))), num_spatial_dims=D, num_points=N))
                 if maxabs(pp - pm) > 1e-11 * (1 + maxabs(u)) or maxabs(ppl - pl) > 1e-11 * (1 + maxabs(u)):
                     run.violation(dict(key, what="not idempotent / solenoidal field changed"), {"err": max(maxabs(pp - pm), maxabs(ppl - pl))})
+    # the projection is linear: P(a u) = a P(u) for amplitudes over twenty decades (nothing in the documented operator knows an absolute scale)
+    for D, N in ((2, 8), (2, 9), (3, 6), (3, 7)):
+        L = 2 * np.pi
+        dop = ex.spectral.build_derivative_operator(D, L, N)
+        P = ex.nonlin_fun.Leray(D, N, derivative_operator=dop)
+        u = zoo.nyquist_free(ex, jnp, zoo.white_noise(rng, D, D, N, amp=1.0))
+        pl = np.asarray(ex.ifft(P(ex.fft(jnp.asarray(u))), num_spatial_dims=D, num_points=N))
+        for a in (1e-6, 1e-9, 1e-13, 1e7):
+            run.case(("projector-homogeneity", D, N, a))
+            key = {"kind": "projector", "D": D, "N": N, "amplitude": a}
+            pla = np.asarray(ex.ifft(P(ex.fft(jnp.asarray(a * u))), num_spatial_dims=D, num_points=N))
+            pma = np.asarray(ex.spectral.make_incompressible(jnp.asarray(a * u)))
+            for nm, p in (("Leray", pla), ("make_incompressible", pma)):
+                if maxabs(p - a * pl) > 1e-11 * a * (1 + maxabs(u)):
+                    run.violation(dict(key, what=f"{nm}: P(a u) != a P(u)"), {"rel_err": maxabs(p - a * pl) / a})
+                if maxabs(divergence_hat(ex, jnp, p, L)) > 1e-11 * a * (1 + maxabs(u)) * float(N) ** D * N:
+                    run.violation(dict(key, what=f"{nm}: divergence not removed"), {})
     # indexing="xy": make_incompressible agrees with the Leray projector built from the xy derivative operator and removes the divergence
     # measured with that operator (component d of the field belongs to coordinate d of make_grid(indexing="xy"))
     for D, N in ((2, 8), (2, 9), (3, 6), (3, 7)):
